@@ -67,6 +67,8 @@ def handlesValid (p : P) : Op → Bool
   | .addLib _ => true
   | .libSyms lib _ => decide (lib < p.libs.all.length)
   | .addMapping pi lib _ _ _ => decide (pi < p.processes.length) && decide (lib < p.libs.all.length)
+  | .removeMapping pi _ => decide (pi < p.processes.length)
+  | .clearMappings pi => decide (pi < p.processes.length)
   | .string _ => true
   | .category _ _ => true
   | .subcategory c _ => decide (c < p.cats.length)
